@@ -57,7 +57,7 @@ def load_contracts():
     return res
 
 
-def make_scratch(repo, swap_ptr16=False, features_note=None):
+def make_scratch(repo, swap_ptr16=False, features_note=None, files=None):
     d = tempfile.mkdtemp(prefix='vk.', dir=os.environ.get('VERIF_SCRATCH', '/tmp'))
     dst = os.path.join(d, 'repo')
 
@@ -75,6 +75,8 @@ def make_scratch(repo, swap_ptr16=False, features_note=None):
         hp = os.path.join(hdir, hfile)
         if not os.path.exists(hp):
             continue
+        if files is not None and hfile != 'support.rs' and hfile not in files:
+            continue   # only the harness modules this property needs are mounted
         p = os.path.join(src, rel)
         if not os.path.exists(p):
             raise Undecided('overlay: %s not found (lost anchor)' % rel)
